@@ -5,6 +5,7 @@ sys.path.insert(0, os.path.dirname(os.path.abspath(__file__)))
 import core  # noqa: E402
 import genes  # noqa: E402  (kernel II: gene bookkeeping, coq/theories/Genes)
 import groups  # noqa: E402  (kernel III: groups and identifier changes, coq/theories/Groups)
+import extras  # noqa: E402  (kernel IV: user constraints / variables, solver switch, merge; coq/theories/Extras)
 
 if __name__ == "__main__":
     sys.exit(core.main(
@@ -22,5 +23,8 @@ if __name__ == "__main__":
                           "objects (harness/genes.py observe), not through an object numbering",
                           "groups kernel: the objects of a history are numbered by identity (harness/groups.py observe); "
                           "which of the repaired / unrepaired variants of seven code paths is under test is decided by "
-                          "probes on the real implementation (harness/groups.py probe_variant)"],
-        extra=[genes.run, groups.run], extra_targets=genes.EXTRA_TARGETS + groups.EXTRA_TARGETS))
+                          "probes on the real implementation (harness/groups.py probe_variant)",
+                          "extras kernel: merge's `right` model is built through the public API from a description that is "
+                          "also given to the Gallina model; variants by probe (harness/extras.py probe_variant)"],
+        extra=[genes.run, groups.run, extras.run],
+        extra_targets=genes.EXTRA_TARGETS + groups.EXTRA_TARGETS + extras.EXTRA_TARGETS))
